@@ -1,7 +1,7 @@
 """C05 -- PMux feeds from exactly the first live input, and is reported so.
 Engine E1-mux: muxes with 1..k inputs x every input kind (own source / own source+converter / switch off a shared source)
 x every live/dead cause per input (0 V source, phase-inactive source, phase-inactive regulator/switch upstream) x scalar or per-input rs
-x rails on/off x attachment by name or by rail x the mux itself active in one phase only; two phases so that every case shows two live/dead patterns."""
+x rails on/off x attachment by name or by rail x the mux itself active in one phase only; two phases so that every case shows two live/dead patterns; plus every 2-/3-input system again after the intermediate element of one input was deleted with del_childs=False (the feeder takes its place in the priority list)."""
 import itertools
 from ..common import Run, Res, seed
 from ..sysmodel import resolve, g
@@ -11,10 +11,48 @@ from .. import phys
 PROP = "C05"
 
 
+def spec_without(spec, name):
+    """expected structure after del_comp(name, del_childs=False): its children hang under its parent, which takes its place in the mux input list."""
+    import copy
+    sp = copy.deepcopy(spec)
+    gone = [c for c in sp["comps"] if c["n"] == name][0]
+    par = gone["p"][0]
+    sp["comps"] = [c for c in sp["comps"] if c["n"] != name]
+    for c in sp["comps"]:
+        if name in c["p"]:
+            if par in c["p"]:
+                c["p"] = [p for p in c["p"] if p != name]
+            else:
+                c["p"] = [par if p == name else p for p in c["p"]]
+    return sp
+
+
 def check_case(case):
     res = Res()
     inputs = [tuple(x) for x in case["inputs"]]
     spec = mux_spec(inputs, case["pal"], case["rs_list"], case["rails"], case["by_rail"], pol=case.get("pol", 1), mux_pc=case.get("mux_pc"))
+    if case.get("delete") is not None:
+        # edit history: the intermediate element of one input is deleted with del_childs=False; the declared priority order must survive
+        from ..sysmodel import build, observe
+        from ..common import quiet_call
+        s = build(spec)
+        quiet_call(s.solve)
+        victim = case["delete"]
+        s.del_comp(victim, del_childs=False)
+        spec = spec_without(spec, victim)
+        try:
+            df, _ = quiet_call(s.solve)
+        except (RuntimeError, ValueError) as e:
+            res.classes.add("edited-unsolvable")
+            return res
+        obs = observe(df)
+        d = resolve(spec)
+        for ph in spec["phases"]:
+            phys.check_phase(res, spec, obs, ph, 25.0, ("C05", "C01", "C04"), d)
+        res.viol = [(("C05.after-delete",) + sig, det) for sig, det in res.viol]
+        res.nontrivial = 1
+        res.classes.add("edited")
+        return res
     s, obs = phys.solve_and_check(res, spec, ("C05", "C01", "C04"))
     if obs is None:
         return res
@@ -55,6 +93,16 @@ def gen_cases(tier):
             if k <= 3:  # the mux itself sleeping in one phase (draws iis from the SELECTED input) / active in the other
                 for mpc in (["a"], ["b"]):
                     yield dict(inputs=[list(x) for x in inputs], pal=pal, rs_list=True, rails=False, by_rail=False, pol=1, mux_pc=mpc)
+    yield from gen_edits(tier, pal)
+
+
+def gen_edits(tier, pal):
+    for k in (2, 3):
+        for inputs in itertools.product(INPUT_OPTS if k == 2 else INPUT_OPTS[::2], repeat=k):
+            for j, (t, st) in enumerate(inputs, 1):
+                if t in ("SC", "SH", "SL"):
+                    victim = {"SC": "C%d", "SH": "P%d", "SL": "G%d"}[t] % j
+                    yield dict(inputs=[list(x) for x in inputs], pal=pal, rs_list=True, rails=False, by_rail=False, pol=1, delete=victim)
 
 
 def replay(doc):
